@@ -14,7 +14,8 @@ IMPORTS = "Require Import V.model.SvcLifecycle."
 THEOREMS = ["running_has_live_pid", "refresh_syncs", "stop_leaves_nothing", "remove_leaves_nothing",
             "removed_stays_removed", "failed_op_never_newly_running", "port_conflict_refused",
             "names_and_dirs_unique", "save_load_identity", "lifecycle_invariants", "lifecycle_constants", "ok_clears_record",
-            "add_saves_every_recorded_service"]
+            "add_saves_every_recorded_service", "save_load_all_values", "connected_peers_encoding_injective",
+            "registry_serde_as_in_source"]
 RULE = ("histories = lists of add / start / stop / remove / upgrade / refresh / kill over the services added so "
         "far, each with a fault plan (set of call indices that fail); quick: every history of <= 3 operations "
         "over the 13-operation alphabet (2 services) with every 0- and 1-fault placement, a seeded sample of "
@@ -93,7 +94,7 @@ def svc_view(n):
                 n["bin"] == "data/" + name + "/antnode" and n["data_dir_exists"] == n["log_dir_exists"])
     v = n["version"] if isinstance(n["version"], int) else BAD
     return [n["number"], n["status"], o2n(n["pid"]), v, o2n(n["node_port"]), o2n(n["metrics_port"]), n["rpc_port"],
-            int(n["peers"]), int(n["listen"]), int(n["peer_id"]), int(n["first"]),
+            o2n(n.get("peers_n")), int(n["listen"]), int(n["peer_id"]), int(n["first"]),
             (int(n["data_dir_exists"]) if shape_ok else 7)]
 
 
